@@ -453,3 +453,8 @@ pub fn chown_tree(root: &Path, uid: u32) {
     }
     walk(root, uid);
 }
+
+/// The same relative path without empty and "." components ("a//b", "a/./b", "./a/b" -> "a/b").
+pub fn norm_rel(p: &str) -> String {
+    p.split('/').filter(|c| !c.is_empty() && *c != ".").collect::<Vec<_>>().join("/")
+}
